@@ -83,6 +83,14 @@ def reads (env : Env) : Stmt → List String
   | .ctas _ _ _ q _ => rdQuery env [] q
   | .createView _ _ _ q => rdQuery env [] q
   | .createTableLike _ src => [tableName env src]
+  | .update _ _ sets frm wh =>
+    unionU (unionU (rdFromExprs env [] frm) (rdExprs env [] (sets.map (·.src)))) (rdOpt env [] wh)
+  | .merge _ _ src on ups ins =>
+    unionU (unionU (match src with
+        | .table parts _ => [tableName env parts]
+        | .derived q _ => rdQuery env [] q) (rdExpr env [] on))
+      (unionU (rdExprs env [] (ups.flatten.map (·.src))) (rdExprs env [] (ins.flatMap (·.vals))))
+  | .copy _ path => [Ident.escapeS path]
   | _ => []
 
 /-- the table a statement writes -/
@@ -93,6 +101,9 @@ def writes (env : Env) : Stmt → List String
   | .createView tgt _ _ _ => [tableName env tgt]
   | .createTable tgt _ _ => [tableName env tgt]
   | .createTableLike tgt _ => [tableName env tgt]
+  | .update tgt _ _ _ _ => [tableName env tgt]
+  | .merge tgt _ _ _ _ _ => [tableName env tgt]
+  | .copy tgt _ => [tableName env tgt]
   | _ => []
 
 /-! ### the fragment: counting subquery occurrences the walk discovers vs all of them -/
@@ -197,7 +208,7 @@ def devQuery (vis all : List String) : Query → List String
   | .setop first rest => devBranch vis all first ++ devOpBranches vis all rest
   | .withq cs body => let r := devCtes vis all cs; r.1 ++ devQuery r.2 all body
 def devBranch (vis all : List String) : Branch → List String
-  | .mk q _ => (match q with | .select .. => [] | _ => ["D7"]) ++ devQuery vis all q
+  | .mk q _ => (match q with | .select .. => [] | _ => ["D7s"]) ++ devQuery vis all q
 def devOpBranches (vis all : List String) : List OpBranch → List String
   | [] => []
   | .mk _ b :: r => devBranch vis all b ++ devOpBranches vis all r
@@ -279,7 +290,16 @@ def stmtQuery? : Stmt → Option Query
 def deviations (s : Stmt) : List String :=
   match stmtQuery? s with
   | some q => (devQuery [] (cteNamesQ q) q).eraseDups
-  | none => []
+  | none =>
+    match s with
+    | .update _ _ sets frm wh =>
+      -- UpdateExtractor looks at FROM only: subqueries in SET expressions and in WHERE are not visited (class D8u)
+      ((if nSubL (sets.map (·.src)) == 0 && (match wh with | some e => nSub e == 0 | none => true) then [] else ["D8u"]) ++
+        devFromExprs [] (cteNamesF frm) frm).eraseDups
+    | .merge _ _ src on ups ins =>
+      ((if nSub on == 0 && nSubL (ups.flatten.map (·.src)) == 0 && nSubL (ins.flatMap (·.vals)) == 0 then [] else ["D8u"]) ++
+        (match src with | .derived q _ => devQuery [] (cteNamesQ q) q | .table _ _ => [])).eraseDups
+    | _ => []
 
 def Frag01 (s : Stmt) : Prop := deviations s = []
 instance (s : Stmt) : Decidable (Frag01 s) := by unfold Frag01; infer_instance
